@@ -3,6 +3,7 @@ package modelgen
 import (
 	"fmt"
 	"sort"
+	"strconv"
 	"strings"
 	"text/template"
 
@@ -185,6 +186,7 @@ func NewTableTemplate() *template.Template {
 	return template.Must(template.New("").Funcs(
 		template.FuncMap{
 			"PrintVal":           printVal,
+			"EnumValueName":      enumValueName,
 			"FieldName":          FieldName,
 			"FieldType":          FieldType,
 			"FieldTypeWithEnums": FieldTypeWithEnums,
@@ -221,7 +223,7 @@ var (
 {{ range  index . "Enums" }}
 {{- $e := . }}
 {{- range .Sets }}
-{{ $e.Alias }}{{ FieldName . }} {{ $e.Alias }} = {{ PrintVal . $e.Type }}
+{{ $e.Alias }}{{ EnumValueName . }} {{ $e.Alias }} = {{ PrintVal . $e.Type }}
 {{- end }}
 {{- end }}
 )
@@ -388,7 +390,9 @@ func FieldEnum(tableName, columnName string, column *ovsdb.ColumnSchema) *Enum {
 		return nil
 	}
 	return &Enum{
-		Type:  column.TypeObj.Key.Type,
+		// the Go type of the values: it is written after "type Alias =" and
+		// selects the literal syntax in printVal
+		Type:  AtomicType(column.TypeObj.Key.Type),
 		Alias: enumName(tableName, columnName),
 		Sets:  column.TypeObj.Key.Enum,
 	}
@@ -485,11 +489,39 @@ func expandInitilaisms(s string) string {
 	return s
 }
 
+// enumValueName returns the part of a constant's name that stands for one
+// value of an enum: the camel-cased string, or the digits of a number
+func enumValueName(v interface{}) string {
+	switch x := v.(type) {
+	case string:
+		return FieldName(x)
+	case bool:
+		if x {
+			return "True"
+		}
+		return "False"
+	case float64:
+		s := strconv.FormatFloat(x, 'f', -1, 64)
+		s = strings.ReplaceAll(s, "-", "Minus")
+		return strings.ReplaceAll(s, ".", "Dot")
+	case int:
+		return strings.ReplaceAll(strconv.Itoa(x), "-", "Minus")
+	}
+	return FieldName(fmt.Sprint(v))
+}
+
 func printVal(v interface{}, t string) string {
 	switch t {
 	case "int":
+		// numbers of a decoded schema are float64
+		if f, ok := v.(float64); ok {
+			return strconv.FormatInt(int64(f), 10)
+		}
 		return fmt.Sprintf(`%d`, v)
 	case "float64":
+		if f, ok := v.(float64); ok {
+			return strconv.FormatFloat(f, 'g', -1, 64)
+		}
 		return fmt.Sprintf(`%f`, v)
 	case "bool":
 		return fmt.Sprintf(`%t`, v)
